@@ -55,7 +55,8 @@ var truthValues = []truthVal{
 	{"map_empty", map[string]any{}, 1, "map"}, {"map_1", map[string]any{"k": 1}, 1, "map"},
 	{"array", [2]int{0, 0}, 1, "array"},
 	{"struct", vStruct{Name: "n"}, 1, "struct"}, {"struct_zero", vStruct{}, 1, "struct"},
-	{"ptr", &vStruct{Name: "p"}, 1, "ptr"}, {"nil_ptr", nilStructPtr, 0, "nilptr"},
+	{"ptr", &vStruct{Name: "p"}, 1, "ptr"}, {"nil_ptr", nilStructPtr, -1, "nilptr"}, {"nil_intptr", (*int)(nil), -1, "nilptr"},
+	{"negzero", math.Copysign(0, -1), -1, "float64"}, {"negzero32", float32(math.Copysign(0, -1)), -1, "float32"},
 	{"nan", math.NaN(), 0, "nan"},
 }
 
